@@ -485,6 +485,11 @@ def compare(interp, st, op, l, r, node=None):
         if t is ast.NotEq:
             return not (l is None and r is None)
         raise Outside("ordering comparison with None", node)
+    if (isinstance(l, str) or isinstance(r, str)) and (is_sym(l) or is_sym(r)) and t in (ast.Eq, ast.NotEq):
+        zl, zr = to_z3(l), to_z3(r)
+        if zl.sort() == z3.StringSort() and zr.sort() == z3.StringSort():
+            return zl == zr if t is ast.Eq else zl != zr
+        return t is ast.NotEq
     if isinstance(l, str) or isinstance(r, str):
         if isinstance(l, str) and isinstance(r, str):
             return {ast.Eq: l == r, ast.NotEq: l != r}.get(t, None) if t in (ast.Eq, ast.NotEq) else _str_cmp(t, l, r)
